@@ -28,9 +28,15 @@ def run(ctx):
     # "the same input always yields the same layout": several graphs laid out on ONE DependencyChartLayout instance
     # must each equal the layout a fresh instance computes (graphs sharing node ids, in both orders)
     hist_bad = []
-    if ctx.prop == "C17":
-        import subprocess
-        sample = [c for c in cases if 2 <= len(c["nodes"]) <= 12][:200]
+    if ctx.prop in ("C17", "C18"):
+        import subprocess, random as _random
+        small = [c for c in cases if 2 <= len(c["nodes"]) <= 12]
+        sample = small[:200]
+        # plus random pairs (adjacent cases of the exhaustive part resemble each other): graphs with long edges first
+        hr = _random.Random(ctx.seed + 17)
+        longish = [c for c in small if len(c["nodes"]) >= 3 and len(c["edges"]) >= 3] or small
+        for _ in range(300 if ctx.tier == "quick" else 3000):
+            sample += [hr.choice(longish), hr.choice(small)]
         code = r'''
 import sys, json
 sys.path.insert(0, %r)
@@ -64,6 +70,45 @@ print(json.dumps(bad[:5]))
             ctx.notes.append("history runner failed: " + r.stderr[-300:])
         for h in hist_bad[:2]:
             ctx.violation({"what": "a layout depends on what the same DependencyChartLayout instance laid out before", "history": h})
+        # ... and across interpreter processes: node ids are strings when DependencyGraph calls the layout, and string
+        # hashing (hence the iteration order of sets of strings) differs per process
+        code2 = r'''
+import sys, json
+sys.path.insert(0, %r)
+from visualization.dependency_chart_layout import DependencyChartLayout
+out = []
+for c in json.load(sys.stdin):
+    nodes = ["n%%s" %% n for n in c["nodes"]]
+    ed, et = {}, []
+    for a, b in c["edges"]:
+        ed.setdefault("n%%s" %% a, []).append("n%%s" %% b); et.append(("n%%s" %% a, "n%%s" %% b))
+    try:
+        out.append(sorted([k, list(v)] for k, v in DependencyChartLayout().from_graph_data(nodes, ed, et).items()))
+    except BaseException as e:
+        out.append("raise " + type(e).__name__)
+print(json.dumps(out))
+''' % ctx.repo_copy
+        from concurrent.futures import ThreadPoolExecutor
+        xs = [c for c in small if len(c["edges"]) >= 2][:150] + [hr.choice(small) for _ in range(150)]
+
+        def one(seed):
+            env = ctx.impl_env()
+            env["PYTHONHASHSEED"] = seed
+            r2 = subprocess.run([common.PY, "-W", "ignore", "-c", code2], input=json.dumps(xs), capture_output=True, text=True, env=env, timeout=600)
+            return json.loads(r2.stdout) if r2.returncode == 0 else None
+        with ThreadPoolExecutor(max_workers=4) as ex:
+            outs = list(ex.map(one, ["0", "1", "2", "4242"]))
+        if any(o is None for o in outs):
+            ctx.notes.append("across-process layout runner failed")
+        else:
+            nb = 0
+            for i, c in enumerate(xs):
+                diff = [sd for sd, o in zip(["1", "2", "4242"], outs[1:]) if o[i] != outs[0][i]]
+                if diff and nb < 2:
+                    nb += 1
+                    hist_bad.append({"case": c})
+                    ctx.violation({"what": "the layout of one graph (string node ids) differs between interpreter processes (PYTHONHASHSEED 0 vs %s)" % diff[0],
+                                   "case": c, "with_seed_0": outs[0][i], "with_seed_%s" % diff[0]: outs[1 + ["1", "2", "4242"].index(diff[0])][i]})
     cov = ctx.coverage
     cov.update({"evaluations": len(cases), "distinct_nontrivial": len(set(json.dumps(c, sort_keys=True) for c in cases if len(c["edges"]) >= 2)),
                 "rule": "DAGs: exhaustive up to %d nodes (all edge subsets of a topological order, relabelled, listing orders shuffled), then random/layered/comb DAGs up to 40 nodes with parallel edges; non-trivial = at least two edges; distinct by (nodes, edges) listing" % (4 if ctx.tier == "quick" else 5),
